@@ -1,3 +1,4 @@
+import re
 from collections import namedtuple
 
 from ply import yacc, lex
@@ -63,6 +64,8 @@ class Lexer(object):
 
     @TOKEN(r'("(\\.|[^"\\])*")|(\'(\\.|[^\'\\])*\')')
     def t_STRING(self, t):
+        # A quoted string may span lines: what follows it is further down
+        t.lexer.lineno += len(re.findall(r"\r\n|\r|\n", t.value))
         try:
             t.value = t.value.strip("\"'").encode().decode("unicode_escape")
         except UnicodeDecodeError:
